@@ -1,16 +1,21 @@
 package main
 
 import (
+	"encoding/json"
 	"fmt"
 	"math/rand"
+	"os"
+	"path/filepath"
 	"strconv"
 	"strings"
+	"time"
 
 	"github.com/tableauio/tableau/format"
 	"github.com/tableauio/tableau/load"
 	"github.com/tableauio/tableau/store"
 	"github.com/tableauio/tableau/verifhook"
 	"google.golang.org/protobuf/proto"
+	"google.golang.org/protobuf/reflect/protoreflect"
 	"google.golang.org/protobuf/types/dynamicpb"
 )
 
@@ -64,9 +69,109 @@ func init() {
 				parts = append(parts, tag+"=0")
 			}
 		}
-		_ = fmt.Sprint
+		// EmitTimezones: every Timestamp of the message — in fields, lists, map values, at any depth — must be
+		// shown in the JSON as the same instant with the offset the location has at that instant
+		if mask&16 != 0 {
+			parts = append(parts, "tz="+checkEmittedZones(orig, filepath.Join(w.Conf, string(md.Name())+".json"), loc, mask&4 != 0))
+		} else {
+			parts = append(parts, "tz=-")
+		}
 		return strings.Join(parts, " ")
 	})
+}
+
+// checkEmittedZones walks the message and the stored JSON document side by side.
+func checkEmittedZones(msg protoreflect.Message, jsonPath string, locName string, protoNames bool) string {
+	data, err := os.ReadFile(jsonPath)
+	if err != nil {
+		return "nofile"
+	}
+	var root map[string]any
+	if err := json.Unmarshal(data, &root); err != nil {
+		return "badjson"
+	}
+	loc, err := time.LoadLocation(locName)
+	if err != nil {
+		return "badloc"
+	}
+	bad := ""
+	var walk func(m protoreflect.Message, node any)
+	check := func(m protoreflect.Message, node any) {
+		s, ok := node.(string)
+		if !ok {
+			bad = "not-a-string"
+			return
+		}
+		secs := m.Get(m.Descriptor().Fields().ByName("seconds")).Int()
+		nanos := m.Get(m.Descriptor().Fields().ByName("nanos")).Int()
+		want := time.Unix(secs, nanos)
+		got, err := time.Parse(time.RFC3339Nano, s)
+		if err != nil {
+			bad = "unparsable:" + s
+			return
+		}
+		if !got.Equal(want) {
+			bad = "instant:" + s
+			return
+		}
+		_, gotOff := got.Zone()
+		_, wantOff := want.In(loc).Zone()
+		if gotOff != wantOff-wantOff%60 {
+			bad = fmt.Sprintf("offset:%s:want%d", s, wantOff)
+		}
+	}
+	walk = func(m protoreflect.Message, node any) {
+		if bad != "" {
+			return
+		}
+		if m.Descriptor().FullName() == "google.protobuf.Timestamp" {
+			check(m, node)
+			return
+		}
+		obj, ok := node.(map[string]any)
+		if !ok {
+			if m.Descriptor().FullName() == "google.protobuf.Duration" {
+				return
+			}
+			bad = "not-an-object"
+			return
+		}
+		m.Range(func(fd protoreflect.FieldDescriptor, v protoreflect.Value) bool {
+			if fd.Kind() != protoreflect.MessageKind || (fd.IsMap() && fd.MapValue().Kind() != protoreflect.MessageKind) {
+				return true
+			}
+			name := fd.JSONName()
+			if protoNames {
+				name = fd.TextName()
+			}
+			sub := obj[name]
+			switch {
+			case fd.IsMap():
+				mo, _ := sub.(map[string]any)
+				v.Map().Range(func(k protoreflect.MapKey, mv protoreflect.Value) bool {
+					walk(mv.Message(), mo[k.String()])
+					return bad == ""
+				})
+			case fd.IsList():
+				lo, _ := sub.([]any)
+				for i := 0; i < v.List().Len() && bad == ""; i++ {
+					if i >= len(lo) {
+						bad = "short-list"
+						break
+					}
+					walk(v.List().Get(i).Message(), lo[i])
+				}
+			default:
+				walk(v.Message(), sub)
+			}
+			return bad == ""
+		})
+	}
+	walk(msg, any(root))
+	if bad != "" {
+		return "0:" + strings.ReplaceAll(bad, " ", "_")
+	}
+	return "1"
 }
 
 func init() {
